@@ -134,10 +134,11 @@ class C07(Prop):
         "newer allocated id, for all interleavings; the recorded interleavings of real runs are replayed through "
         "that model. Executions with rollback recovery (C16's generator) are checked structurally only: well-ordered "
         "acyclic relation over persisted tokens, every emitted token of a job-bound step linked, dependees on the same "
-        "branch of the tag tree; exact dependee sets after rollback are not checked.")
+        "branch of the tag tree, and — per executed workflow, main or recovery — the exact dependee set of every token a "
+        "job-bound step emitted, by tag over that workflow's own ports (loop shapes excepted).")
     LEVEL_NOTE = ("translation validation by a proven-sound checker; completeness per step class is decided per run, not "
                   "proved; 'persisted before' relies on SQLite allocating increasing rowids (trusted); after rollback "
-                  "recovery only structural clauses are checked")
+                  "exactness is checked for job-bound steps only, by tag, and not for loop shapes")
     TECHNIQUE = "proven-sound checker evaluated in Coq on table dumps + Coq theorem on the write discipline"
     RULE = ("the C04 workloads (see C04, incl. Deploy/Schedule/Execute pipelines with misaligned input ports) with the "
             "database dumped at quiescence, plus 12 executions with injected faults and rollback recovery (C16 generator); non-trivial = at least 3 emitted "
@@ -186,6 +187,26 @@ class C07(Prop):
         from streamflow.workflow.token import IterationTerminationToken, TerminationToken
 
         holder = {}
+        from streamflow.workflow.executor import StreamFlowExecutor
+        from streamflow.workflow.step import BaseStep
+
+        KINDS = ("ExecuteStep", "TransferStep", "ScheduleStep", "InputInjectorStep", "ScatterStep", "GatherStep",
+                 "DeployStep")
+        seen_wfs, emissions = [], []          # every workflow an executor ran (main + recovery), every _persist_token
+        o_run, o_persist = StreamFlowExecutor.run, BaseStep._persist_token
+
+        async def run(ex):
+            if all(w is not ex.workflow for w in seen_wfs):
+                seen_wfs.append(ex.workflow)
+            return await o_run(ex)
+
+        async def persist(st, token, port, input_token_ids):
+            r = await o_persist(st, token=token, port=port, input_token_ids=input_token_ids)
+            emissions.append((st.workflow, st.name, port.name, r.persistent_id))
+            return r
+
+        def kind_of(st):
+            return next((b.__name__ for b in type(st).__mro__ if b.__name__ in KINDS), "other")
 
         def hook(context, wf):
             orig = context.close
@@ -211,12 +232,30 @@ class C07(Prop):
                             main[pn]["ids"] = [[t.tag, t.persistent_id] for t in po.token_list
                                                if not isinstance(t, (TerminationToken, IterationTerminationToken))]   # control tokens are never persisted
                     holder["main"] = main
+                    # every workflow that was executed, with its own ports: what recovery re-ran is judged against
+                    # the recovery workflow's ports, not the main one's
+                    wfs = []
+                    for w in seen_wfs:
+                        ports = {}
+                        for pn, po in w.ports.items():
+                            ports[pn] = {"cls": type(po).__name__,
+                                         "toks": [[t.tag, t.persistent_id, type(t).__name__] for t in po.token_list
+                                                  if not isinstance(t, (TerminationToken, IterationTerminationToken))]}
+                        steps = {st.name: {"kind": kind_of(st), "ins": dict(st.input_ports), "outs": dict(st.output_ports)}
+                                 for st in w.steps.values()}
+                        em = [[sn, pn, tid] for (ww, sn, pn, tid) in emissions if ww is w]
+                        wfs.append({"main": w is wf, "steps": steps, "ports": ports, "emitted": em})
+                    holder["wfs"] = wfs
                 finally:
                     await orig()
 
             context.close = close
 
-        o = _recov.run_engine(c, hooks=hook)
+        StreamFlowExecutor.run, BaseStep._persist_token = run, persist      # observation only; restored below
+        try:
+            o = _recov.run_engine(c, hooks=hook)
+        finally:
+            StreamFlowExecutor.run, BaseStep._persist_token = o_run, o_persist
         out = {"ret": "hang" if o.get("hang") else o.get("result", "?"), "recoveries": sum(1 for e in o.get("trace", []) if e and e[0] == "recover")}
         out.update(holder)
         return out
@@ -309,6 +348,12 @@ class C07(Prop):
             for a in das:
                 if not related(rows[a][2], rows[b][2]):
                     return ("tag-unrelated", f"token {b} (tag {rows[b][2]}) is linked to token {a} of tag {rows[a][2]}")
+        # exact dependee sets of what the job-bound steps emitted, by tag over the ports of the workflow (main or
+        # recovery) that emitted it.  Loop shapes reuse tags across iterations: skipped.
+        if c["shape"]["kind"] != "loop":
+            v = self._exact_recov(o, rows, deps)
+            if v:
+                return v
         color = {}
 
         def dfs(x):
@@ -326,6 +371,52 @@ class C07(Prop):
                 return ("cycle", "the provenance relation has a cycle")
         return None
 
+    def _exact_recov(self, o, rows, deps, stats=None):
+        for w in o.get("wfs", []):
+            ports = w["ports"]
+
+            def one(pn, tag, want_job=False):
+                m = [i for t, i, ty in ports.get(pn, {"toks": []})["toks"]
+                     if t == tag and i is not None and (ty == "JobToken") == want_job]
+                return m if len(m) == 1 else None
+
+            for sn, pn, tid in w["emitted"]:
+                st = w["steps"].get(sn)
+                if st is None or tid not in rows or st["kind"] not in ("ExecuteStep", "TransferStep", "ScheduleStep",
+                                                                        "InputInjectorStep"):
+                    continue
+                tag = rows[tid][2]
+                data = [p for n, p in st["ins"].items()
+                        if n != "__job__" and ports.get(p, {}).get("cls") != "ConnectorPort"]
+                conn = [p for n, p in st["ins"].items() if ports.get(p, {}).get("cls") == "ConnectorPort"]
+                parts = [one(p, tag) for p in data]
+                conn_ids = None
+                if st["kind"] == "ScheduleStep":
+                    # connector tokens: those on the connector port WHEN the job was scheduled; a redeployed
+                    # connector token may be put on the port later, so: the recorded ones must be connector
+                    # tokens of this workflow, at least one per connector port
+                    conn_ids = {i for p in conn for _, i, _ in ports[p]["toks"] if i is not None}
+                else:
+                    parts.append(one(st["ins"].get("__job__"), tag, want_job=True))
+                if any(x is None for x in parts):
+                    if stats is not None:
+                        stats["ambiguous"] = stats.get("ambiguous", 0) + 1
+                    continue            # the tag does not identify one token per port: exactness not decidable here
+                exp = sorted({i for x in parts for i in x})
+                if stats is not None:
+                    stats["exact"] = stats.get("exact", 0) + 1
+                got = sorted(deps.get(tid, []))
+                if conn_ids is not None:
+                    rest = [i for i in got if i not in exp]
+                    if all(i in conn_ids for i in rest) and (rest or not conn) and all(i in got for i in exp):
+                        continue
+                    got = got + ["<connector tokens: %s>" % sorted(conn_ids)]
+                if got != exp:
+                    return ("wrong-dependees-recov",
+                            f"{'main' if w['main'] else 'recovery'} workflow, step {sn}: token {tid} (tag {tag}) has recorded "
+                            f"dependees {got}, the tokens of its tag on the step's ports are {exp}")
+        return None
+
     def coq_case(self, c, o):
         if "crash" in o or "hang" in o or o.get("ret") == "hang":
             return None
@@ -339,7 +430,7 @@ class C07(Prop):
             edges = coq_list([f"({coq_N(a)}, {coq_N(b)})" for a, b in o["prov"]])
             ex = coq_list([f"({coq_N(t)}, {coq_list([coq_N(i) for i in sorted(e)])})" for t, e in sorted(deps.items())])
             structural = self._oracle_recov(c, o)
-            ok = structural is None or structural[0] in ("no-dependees", "tag-unrelated", "not-persisted")
+            ok = structural is None or structural[0] in ("no-dependees", "tag-unrelated", "not-persisted", "wrong-dependees-recov")
             return f"CProv {toks} {edges} {ex} {coq_bool(ok)}"
         if c.get("_disc"):
             d = discipline_ops(o)
